@@ -326,7 +326,7 @@ def exec_regions(toks, it):
             e = i + 1
             if toks[e].text == "(":
                 e = match_close(toks, e) + 1
-            regs.append((i, e))
+            regs.append((i, e, "vis"))
             i = e
         else:
             i += 1
@@ -373,6 +373,7 @@ def exec_regions(toks, it):
             j = c + 1
             continue
         j += 1
+    regs = [r if len(r) == 3 else (r[0], r[1], "ann") for r in regs]
     regs.sort()
     return regs
 
@@ -380,7 +381,7 @@ def exec_regions(toks, it):
 def kept_tokens(toks, it, regs):
     """indices of tokens of the item that are executable text"""
     skip = set()
-    for a, b in regs:
+    for a, b, _k in regs:
         skip.update(range(a, b))
     return [k for k in range(it.lo, it.hi) if k not in skip]
 
